@@ -294,6 +294,12 @@ def rows(g, start=None, stop=None, max_paths=4000, want_calls=None, max_visits=1
         feasible = True
         for (e, lab, n) in row.conds:
             c = ir.const_value(e)
+            pe0 = ir.peel(e, casts=False)
+            if c is None and pe0[0] == 'bin' and pe0[1] in ('Eq', 'Ne', 'Lt', 'Le', 'Gt', 'Ge'):
+                # comparison of two integer constants (e.g. a helper's constant result against a literal): fold
+                a_, b_ = ir.const_value(pe0[2]), ir.const_value(pe0[3])
+                if isinstance(a_, int) and isinstance(b_, int):
+                    c = int({'Eq': a_ == b_, 'Ne': a_ != b_, 'Lt': a_ < b_, 'Le': a_ <= b_, 'Gt': a_ > b_, 'Ge': a_ >= b_}[pe0[1]])
             if isinstance(c, int) and isinstance(lab, tuple):
                 # the condition is a constant along this path (e.g. the boolean produced by `matches!`)
                 if (lab[0] == 'case' and lab[1] != c) or (lab[0] == 'otherwise' and c in lab[1]):
